@@ -100,7 +100,35 @@ def run(ctx):
     for ty, want in sorted(spec.get("enums", {}).items()):
         e = sc.get(ty)
         if e is None or e["VARIANTS"] is None:
-            ctx.lost("C19.R4", "VARIANTS constant of <%s as Deserialize> (type renamed or no longer an enum)" % ty)
+            # no derived decoder: a hand-written one? Its accepted keys are the string literals it compares the
+            # transmitted key with (in <T as FromStr>::from_str / <T as Deserialize>::deserialize and their nested items)
+            hand = [k for k in prog.fns if ("<%s as FromStr>::from_str" % ty) in k or ("<%s as Deserialize>::deserialize" % ty) in k or ("<%s as TryFrom" % ty) in k]
+            lits = set()
+            calls = set()
+            for k in hand:
+                lits |= string_consts_of(prog, k)
+                for b in prog.fns[k]["blocks"]:
+                    if b["term"]["k"] == "call":
+                        calls.add((b["term"]["callee"].get("key") or "").rsplit("::", 1)[-1])
+            lits = {l for l in lits if l and " " not in l and len(l) < 40}
+            if not hand or not lits:
+                ctx.lost("C19.R4", "VARIANTS constant of <%s as Deserialize> (type renamed or no longer an enum)" % ty)
+                continue
+            lowered = bool({"to_lowercase", "to_ascii_lowercase", "make_ascii_lowercase"} & calls)
+            any_case = "eq_ignore_ascii_case" in calls
+            if any_case:
+                accepted = lambda w: any(l.lower() == w.lower() for l in lits)
+            elif lowered:
+                accepted = lambda w: w.lower() in lits        # the key is lower-cased first: only lower-case literals can match
+            else:
+                accepted = lambda w: w in lits
+            missing = sorted(w for w in want if not accepted(w))
+            f0 = prog.fns[hand[0]]
+            ctx.ob("C19.R4", "%s|keys" % ty, not missing,
+                   "" if not missing else "%s is decoded by hand: the transmitted key is %scompared with the literals %s, so the documented key(s) %s match no arm - such a message decodes to the fallback / an error instead of its own variant%s" % (
+                       ty, "lower-cased and then " if lowered and not any_case else "", sorted(lits), missing,
+                       " (an arm written in wire casing can never equal a lower-cased string)" if lowered and any(w in lits for w in missing) else ""),
+                   "%s:%d" % (f0["file"], f0["line"]), sample={"type": ty, "hand_written": True, "literals": sorted(lits)})
             continue
         got = e["VARIANTS"]
         ok = sorted(got) == sorted(want)
